@@ -12,7 +12,7 @@ import (
 // C10 — issuer-side token verification accepts exactly the tokens it issued.
 type c10 struct{ base }
 
-func init() { core.Register(c10{base{"C10", "fault_enumeration", 64, 1500}}) }
+func init() { core.Register(c10{base{"C10", "fault_enumeration", 256, 6000}}) }
 
 func (c10) Describe() core.Description {
 	return core.Description{
